@@ -99,7 +99,7 @@ def m_fetch_update(eng, ctx, f, path, args, dty):
     clo = args[3]
     old = eng.fresh("fu_old", s)
     # run the closure body on `old` in a sub-context (must be straight-line and return Some(new))
-    b = eng.prog.closures.get(clo.span) if isinstance(clo, Closure) else None
+    b = eng.prog.closure_body(clo) if isinstance(clo, Closure) else None
     if b is None:
         raise Unsupported("fetch_update closure not found")
     c2 = Ctx(eng, ctx.tid)
